@@ -107,8 +107,9 @@ def _extract_source(repo, spec, gsubst, log):
         text = _RULES[rn](text, fired)
     for s in list(spec.get("subst", [])) + list(gsubst):
         text = R.subst(text, s["from"], s["to"], fired, must=not s.get("optional", s in gsubst))
+    reasons = {"subst `%s` => `%s`" % (x["from"], x["to"]): x.get("reason", "") for x in list(spec.get("subst", [])) + list(gsubst)}
     for k, v in fired.items():
-        log.append("%s:%s %s: %s x%d" % (rel, kind, name, k, v))
+        log.append("%s:%s %s: %s x%d%s" % (rel, kind, name, k, v, (" -- " + reasons[k]) if reasons.get(k) else ""))
     ident = "%s::%s%s%s" % (rel, (cont + "::") if cont else "", "" if kind == "fn" else kind + " ", name)
     rec = {"id": ident, "kind": kind, "name": name, "container": cont, "path": rel, "lines": [a, b], "sha256": _sha(raw),
            "rewritten": text != raw, "observe_only": bool(spec.get("observe_only"))}
